@@ -21,11 +21,12 @@
    back to 0 whenever a SetWithCap call loads the counter and finds it within the
    capacity — see occupancy_bound.
 
-   [rescan] selects the spill loop: false = the loop of /repo as it stands
-   (for i := 1; i < len(segments) && deficit > 0; i++), true = the repaired loop of
-   props/C16/fix.patch (… && (i < len(segments) || (deficit == 2 && capacity > 0))):
+   [rescan] selects the spill loop: true = the loop of /repo since 47c8f66
+   (for i := 1; deficit > 0 && (i < len(segments) || (deficit == 2 && capacity > 0)); i++):
    a writer that has been round the ring without evicting anything while the count
-   is still above the capacity goes round again, own segment included.
+   is still above the capacity goes round again, own segment included;
+   false = the loop before that commit (… i < len(segments) && deficit > 0), kept
+   for the regression lemmas.
 
    SetWithCap (Go lines in segment_uint64_map.go):
      SwcLock : rwlock.Lock(); oldSize; data.Put             (own segment)
